@@ -180,7 +180,7 @@ def run(ctx):
         if quick:
             args = ["-seed", ctx.seed, "-n", 2000, "-hist", 200, "-dec", 600, "-str", 800]
         else:
-            args = ["-seed", ctx.seed, "-n", 100000, "-hist", 5000, "-dec", 20000, "-str", 20000, "-pairs"]
+            args = ["-seed", ctx.seed, "-n", 30000, "-hist", 2500, "-dec", 6000, "-str", 6000, "-pairs"]
         rows = run_harness(ctx, "cases.jsonl", args, timeout=3000)
     skipped = [o for o in rows if o["t"] == "skip"]
     rows = [o for o in rows if o["t"] != "skip"]
